@@ -433,13 +433,9 @@ func scenarios(r *ev.Run) []scenario {
 		{Name: "3sessions-mix", Threads: [][]string{{"s1", "u1"}, {"x2"}, {"fs", "u3"}}},
 		{Name: "lookup-2db", Ops: "lookup", Threads: [][]string{{"l1"}, {"l2"}}},
 		{Name: "lookup-vs-plan", Ops: "lookup", Threads: [][]string{{"l1", "l1"}, {"u2"}}},
-	}
-	if r.Thorough() {
-		s = append(s,
-			scenario{Name: "3sessions-writes", Threads: [][]string{{"i1", "s1"}, {"up", "f1"}, {"de", "sh"}}},
-			scenario{Name: "3sessions-2each", Threads: [][]string{{"u1", "u2"}, {"x2", "u3"}, {"f2", "f1"}}},
-			scenario{Name: "lookup-3", Ops: "lookup", Threads: [][]string{{"l1"}, {"l2"}, {"f2"}}},
-		)
+		{Name: "3sessions-writes", Threads: [][]string{{"i1", "s1"}, {"up", "f1"}, {"de", "sh"}}},
+		{Name: "3sessions-2each", Threads: [][]string{{"u1", "u2"}, {"x2", "u3"}, {"f2", "f1"}}},
+		{Name: "lookup-3", Ops: "lookup", Threads: [][]string{{"l1"}, {"l2"}, {"f2"}}},
 	}
 	for i := range s {
 		if s[i].Ops == "" {
